@@ -168,6 +168,7 @@ def run(F, R, ctx):
     R.inst("C07.e", "native primitives without unfinished-code macros", True, sample={"natives": len(nat), "unfinished": n},
            nontrivial=True)
     global_slot_index_rule(F, R)
+    lexer_const_index_rule(F, R)
 
 
 IDX_RX = (r"\{impl Index(Mut)?<I> for (Vec<T,A>|\[T\]|str|String)\}::index(_mut)?$|\{impl \[T\]\}::(swap|split_at|split_at_mut)$|"
@@ -790,3 +791,53 @@ def global_slot_index_rule(F, R):
                    "definition runs — (begin (define (g y) (f y)) (g 1) (define (f x) …)) after an earlier (define (f x) …) — "
                    "aborts the host with an index panic" % (fn.short(), b.get("line")), fn.loc(b.get("line")), sample=True)
     R.floor("C07.g", "indexings of the global table by a slot parameter", n, 2)
+
+
+def lexer_const_index_rule(F, R):
+    R.rule("C07.i", "a constant-position index in the reader is protected by a length test: for every bounds-checked index at a "
+                    "constant position in steel_parser::lexer (MIR bounds assertion with a constant index), a branch on a length "
+                    "test (str / slice len, is_empty) dominates the index in its function with one side leading to it — or, when "
+                    "the indexed value is a parameter of a private helper, dominates every call of that helper. A token that "
+                    "ends where the text ends (`#\\` as the last two characters of a file, a REPL line, a string handed to read) "
+                    "has nothing at that position, and the index panic takes the host down")
+    LEN = r"core::str::\{impl str\}::(len|is_empty)$|\{impl \[T\]\}::(len|is_empty)$|Vec<T,A>\}::(len|is_empty)$"
+
+    def guarded(fn, site):
+        dom = fn.dominators()
+        lens = [b["dest"] for i, b in fn.calls() if re.search(LEN, b["callee"]) and i in dom.get(site, ())]
+        if not lens:
+            return False
+        taint = lib.tainted_locals(fn, lens)
+        for sb in dom.get(site, ()):
+            blk = fn.blocks[sb]
+            if sb == site or blk["k"] != "switch":
+                continue
+            if not any(x in taint for x in lib.TOK.findall(str(blk.get("place", "")))):
+                continue
+            sides = [t for t in set(blk["s"]) if t == site or site in fn.reachable_from([t], avoid={sb})]
+            if len(sides) == 1:
+                return True
+        return False
+    n = 0
+    for name, fn in sorted(F.fns.items()):
+        if not name.startswith("steel_parser::lexer::"):
+            continue
+        for i, b in enumerate(fn.blocks):
+            if b["c"] or b["k"] != "assert" or "bounds" not in str(b.get("what", "")):
+                continue
+            if not any(e[0] == "kv" and str(e[2]).startswith("const:") for e in b["e"]):
+                continue        # not a constant position
+            n += 1
+            ok = guarded(fn, i)
+            where = fn
+            if not ok:
+                callers = [(g, j) for g in F.fns.values() if g.name.startswith("steel_parser::") for j, cb in g.calls() if cb["callee"] == name]
+                ok = bool(callers) and all(guarded(g, j) for g, j in callers)
+                if callers and not ok:
+                    where = [g for g, j in callers if not guarded(g, j)][0]
+            R.inst("C07.i", "%s / constant-position index #%d is protected by a length test" % (fn.short(), n), ok,
+                   "%s indexes at a constant position (line %s) and neither it nor %s tests the length first: a token cut off by "
+                   "the end of the text — a source ending in `#\\` — makes the reader panic (exit status 101) instead of reporting "
+                   "an invalid character" % (fn.short(), b.get("line"), "every caller" if where is fn else where.short()),
+                   fn.loc(b.get("line")), sample=True)
+    R.floor("C07.i", "constant-position indexes in the lexer", n, 1)
